@@ -4659,6 +4659,12 @@ class ParameterizedMetaclass(type):
                 inherited_parameter = parameter
                 parameter = copy.copy(parameter)
                 parameter.owner = mcs
+                # (as for a per-instance copy: mutable attribute values such
+                # as a Selector's objects are not shared with the original)
+                for slot in type(parameter)._all_slots_:
+                    v = getattr(parameter, slot)
+                    if slot not in ('default', 'watchers') and _is_mutable_container(v):
+                        object.__setattr__(parameter, slot, copy.copy(v))
                 # (it may be temporarily unlocked by edit_constant)
                 _copied_while_unlocked(inherited_parameter, parameter)
                 type.__setattr__(mcs,attribute_name,parameter)
